@@ -217,8 +217,8 @@ pub const PROPS: &[Prop] = &[
         id: "C06",
         quick: 12000,
         thorough: 300_000,
-        rule: "chan family (mpsc/spsc/mpmc; 1-3 senders, 1-3 mpmc receivers, thread/coroutine endpoints, generated send/clone/drop and recv/try_recv/recv_timeout programs, generated schedule). Non-trivial = at least one pre-emption happened AND a send's call/return interval overlapped a blocking receive's interval. Distinct = distinct hash of (program, config, schedule).",
-        units: &[Unit { fam: "chan", label: "delivery", share: 1, strategy: chan_c06 }],
+        rule: "chan family (mpsc/spsc/mpmc; 1-3 senders, 1-3 mpmc receivers, thread/coroutine endpoints, generated send/clone/drop and recv/try_recv/recv_timeout programs, generated schedule); one case in three from the generator biased to early drops of receivers (plain or aimed at the steps of a send: every value is received or dropped exactly once). Non-trivial = at least one pre-emption happened AND a send's call/return interval overlapped a blocking receive's interval. Distinct = distinct hash of (program, config, schedule).",
+        units: &[Unit { fam: "chan", label: "delivery", share: 2, strategy: chan_c06 }, Unit { fam: "chan", label: "receiver-gone", share: 1, strategy: chan_c07 }],
     },
     Prop {
         id: "C07",
